@@ -130,19 +130,27 @@ class LTLExplainer(LtlAstVisitor):
         intervals = args[0]
         flag = args[1]
         op_signal = self.spec.results[element.children[0]]
+        # rise(x) = x and not(prev(x)): the operand matters at the sample itself
+        # and, with the opposite polarity, at the sample before
         op_intervals = explain_rise(op_signal, intervals)
+        prev_intervals = explain_prev(op_signal, intervals)
         self.explanations[element.name] = intervals
 
         self.visit(element.children[0], [op_intervals, flag])
+        self.visit(element.children[0], [prev_intervals, not flag])
 
     def visitFall(self, element, args):
         intervals = args[0]
         flag = args[1]
         op_signal = self.spec.results[element.children[0]]
+        # fall(x) = not(x) and prev(x): the operand matters, negated, at the sample
+        # itself and with the same polarity at the sample before
         op_intervals = explain_fall(op_signal, intervals)
+        prev_intervals = explain_prev(op_signal, intervals)
         self.explanations[element.name] = intervals
 
-        self.visit(element.children[0], [op_intervals, flag])
+        self.visit(element.children[0], [op_intervals, not flag])
+        self.visit(element.children[0], [prev_intervals, flag])
 
     def visitNot(self, element, args):
         intervals = args[0]
